@@ -91,7 +91,7 @@ func compare(u *ops.Universe, op ops.Op, a, b ops.Out, emptyRepo bool) string {
 	}
 	if a.Err != "" {
 		wa, wb := norm(a.Err), norm(b.Err)
-		if k := u.Manifests[op.M%len(u.Manifests)].Kind; op.K == "pushManifest" && (k == "badjson" || k == "wrongshape") {
+		if k := u.Manifests[op.M%len(u.Manifests)].Kind; op.K == "pushManifest" && (k == "badjson" || k == "wrongshape" || k == "trailing") {
 			// malformed manifest bytes: rejected on both sides; when the push is
 			// also refused for a second reason (immutable tag) the server's JSON
 			// check and the registry's tag check may report in either order.
